@@ -16,7 +16,10 @@ import sys
 import time
 
 VERIF = os.path.dirname(os.path.dirname(os.path.abspath(__file__)))
-REPO = os.environ.get("VERIF_REPO", "/repo")
+REPO = os.environ.get("VERIF_REPO") or "/repo"     # (an empty value means "not set")
+if not os.path.isfile(os.path.join(REPO, "CMakeLists.txt")) or not os.path.isdir(os.path.join(REPO, "lib", "Core")):
+    sys.stderr.write("build.py: %r is not an llbuild source tree\n" % REPO)
+    sys.exit(2)
 BUILD = os.path.join(VERIF, "build")
 SRC = os.path.join(BUILD, "src")
 
